@@ -27,6 +27,12 @@ func NewIntegerIter[N integer](n N) Iterator[pair[N, any]] {
 	return &integerIter[N]{n: n}
 }
 
+// NewIntegerIterOf is NewIntegerIter for a constant bound that takes its type from the iteration variable
+// (var i uint8; for i = range 3): the variable types the bound by example
+func NewIntegerIterOf[N integer](_, n N) Iterator[pair[N, any]] {
+	return NewIntegerIter(n)
+}
+
 func NewStringIter[S ~string](str S) Iterator[pair[int, rune]] {
 	return &stringIter{str: string(str)}
 }
